@@ -123,7 +123,7 @@ fn cmp(name: &str, a: &Out, b: &Out, t: f64, skip_signals: bool, sar_first: bool
 }
 
 /// few-ulp perturbation of an input
-fn perturb(x: &sut::In) -> sut::In {
+pub fn perturb(x: &sut::In) -> sut::In {
 	// every field of one input is scaled by the same factor 1 + m * eps, m in {-3..3} \ {0} chosen from a hash of the
 	// input: identical inputs stay identical, candles stay valid, differences and sums move by a few ulp
 	let h = x.words().iter().fold(0x9E37u64, |h, w| (h ^ w).wrapping_mul(0x0000_0100_0000_01b3).rotate_left(23));
